@@ -253,8 +253,35 @@ impl Ctx {
             }
             // strict re-judgement in a child process (an input that kills the process must not kill the check)
             let Some(exe) = &exe else { continue };
-            let out = Command::new(exe).args(["fuzzjudge", target]).arg(a).env("VERIF_DIR", crate::verif_dir()).stderr(Stdio::null()).output();
-            let parsed: Option<Value> = out.as_ref().ok().filter(|o| o.status.success()).and_then(|o| serde_json::from_slice(o.stdout.split(|b| *b == b'\n').next().unwrap_or(&[])).ok());
+            // (bounded: an artifact on which a stage does not terminate must not hang the check)
+            let outfile = work.join("judge.out");
+            let spawned = std::fs::File::create(&outfile).ok().and_then(|f| {
+                Command::new(exe).args(["fuzzjudge", target]).arg(a).env("VERIF_DIR", crate::verif_dir()).stderr(Stdio::null()).stdout(Stdio::from(f)).spawn().ok()
+            });
+            let mut finished_ok = false;
+            if let Some(mut child) = spawned {
+                let t1 = std::time::Instant::now();
+                loop {
+                    match child.try_wait() {
+                        Ok(Some(st)) => {
+                            finished_ok = st.success();
+                            break;
+                        }
+                        Ok(None) if t1.elapsed().as_secs() > 75 => {
+                            let _ = child.kill();
+                            let _ = child.wait();
+                            timeouts += 1;
+                            break;
+                        }
+                        Ok(None) => std::thread::sleep(std::time::Duration::from_millis(50)),
+                        Err(_) => break,
+                    }
+                }
+                if !finished_ok && t1.elapsed().as_secs() > 75 {
+                    continue; // inconclusive (time-out), counted above
+                }
+            }
+            let parsed: Option<Value> = if finished_ok { std::fs::read(&outfile).ok().and_then(|o| serde_json::from_slice(o.split(|b| *b == b'\n').next().unwrap_or(&[])).ok()) } else { None };
             match parsed {
                 Some(v) => match v["verdict"].as_str().unwrap_or("") {
                     "fail" => {
